@@ -1,147 +1,146 @@
 //! C07 — occurrences combine by action: last-wins, append-in-order, saturating count.
+//! Oracle: an independent abstract simulator of "occurrences combine by action" evaluated on the
+//! intended occurrence list, compared with the typed getters of the real `ArgMatches`.
 use crate::spec::*;
 use crate::util::*;
 use clap::error::ErrorKind;
+use std::collections::BTreeMap;
 
-/// an occurrence of the main arg `m` (values) or of the companion `o`
 #[derive(Clone, Debug)]
-enum Occ { Main(Vec<String>), Other(Vec<String>), Flag }
+struct Occ { arg: usize, vals: Vec<String> }
 
 pub fn run(o: &Opts) -> Report {
-    let mut rep = Report::new("C07", "one main arg with action in {Set, Append, Count, SetTrue, SetFalse} x {args_override_self, overrides_with(self), overrides_with(other) in either direction, plain} x occurrence sequences (0..300 repeats incl. 254/255/256, interleaved with a companion option and a flag, long/short/cluster/attached spellings); typed getters compared with the action's specification; model must predict the whole ArgMatches; non-trivial = at least two occurrences of the main arg; distinct by canonical request");
+    let mut rep = Report::new("C07", "three option args (actions Set/Append/Count/SetTrue/SetFalse; num_args 1, 1..=2, 0..=1 with/without default_missing, 0..; overrides_with self/each other in any direction; args_override_self) + a counting flag x occurrence sequences (0..310 repeats incl. 254/255/256, interleaved, long/short/cluster/attached/= spellings); oracle = abstract occurrence simulator vs typed getters; model must predict the whole ArgMatches; non-trivial = at least two occurrences of one arg; distinct by canonical request");
     let mut rng = Rng::new(o.seed ^ 0xC07);
     let mut reqs = vec![]; let mut impls = vec![];
-    let n_cases = if o.thorough() { 40_000 } else { 6_000 };
-    for case_i in 0..n_cases {
-        let action = *rng.pick(&["set", "append", "count", "setTrue", "setFalse"]);
-        let takes = matches!(action, "set" | "append");
-        let self_override = rng.below(4); // 0 none, 1 args_override_self, 2 overrides_with(self), 3 none
-        let rel = rng.below(5); // 0: m overrides o, 1: o overrides m, 2: both, _ none
-        let mut m = ArgS { id: "m".into(), short: Some('m'), long: Some("main".into()), action: Some(action), ..Default::default() };
-        let mut other = ArgS { id: "o".into(), short: Some('o'), long: Some("other".into()), action: Some(if rng.chance(1, 2) { "set" } else { "append" }), ..Default::default() };
-        let flag = ArgS { id: "f".into(), short: Some('f'), long: Some("flag".into()), action: Some("count"), ..Default::default() };
-        if takes && rng.chance(1, 4) { m.num_vals = Some((1, Some(2))); }
-        if takes && rng.chance(1, 6) { m.num_vals = Some((0, Some(1))); m.default_missing = vec!["miss".into()]; }
-        if takes && rng.chance(1, 6) { m.delim = Some(','); }
-        if self_override == 2 { m.overrides.push("m".into()); }
-        if rel == 0 || rel == 2 { m.overrides.push("o".into()); }
-        if rel == 1 || rel == 2 { other.overrides.push("m".into()); }
-        let mut cmd = CmdS { name: "prog".into(), args: vec![m.clone(), other.clone(), flag], ..Default::default() };
-        cmd.settings.args_override_self = self_override == 1;
+    let n_cases = if o.thorough() { 60_000 } else { 8_000 };
+    let names = [("m", 'm', "main"), ("o", 'o', "other"), ("q", 'q', "quux")];
+    for _ in 0..n_cases {
+        let mut args: Vec<ArgS> = vec![];
+        for (id, sh, lg) in names {
+            let action = *rng.pick(&["set", "append", "append", "count", "setTrue", "setFalse"]);
+            let mut a = ArgS { id: id.into(), short: Some(sh), long: Some(lg.into()), action: Some(action), ..Default::default() };
+            if matches!(action, "set" | "append") {
+                match rng.below(8) {
+                    0 => a.num_vals = Some((1, Some(2))),
+                    1 => { a.num_vals = Some((0, Some(1))); a.default_missing = vec!["miss".into()]; }
+                    2 => a.num_vals = Some((0, Some(1))),
+                    3 => a.num_vals = Some((0, None)),
+                    _ => {}
+                }
+            }
+            args.push(a);
+        }
+        // override relations
+        for i in 0..3 { for j in 0..3 { if rng.chance(1, 5) { let tgt = args[j].id.clone(); args[i].overrides.push(tgt); } } }
+        args.push(ArgS { id: "f".into(), short: Some('f'), long: Some("flag".into()), action: Some("count"), ..Default::default() });
+        let mut cmd = CmdS { name: "prog".into(), args: args.clone(), ..Default::default() };
+        cmd.settings.args_override_self = rng.chance(1, 4);
         if !real_valid(&cmd) { rep.count("invalid_definition(skipped)"); continue; }
         // occurrence sequence
-        let n_main = match rng.below(12) { 0 => 0, 1 => 1, 2 => 254 + rng.below(4), 3 => 290 + rng.below(20), _ => 2 + rng.below(5) };
-        let n_main = if takes && n_main > 40 { 2 + n_main % 7 } else { n_main };
+        let total = match rng.below(12) { 0 => 0, 1 => 1, 2 => 254 + rng.below(4), 3 => 290 + rng.below(20), _ => 2 + rng.below(8) };
+        let heavy = if total > 40 { (0..3).find(|&i| !matches!(args[i].action, Some("set") | Some("append"))) } else { None };
+        let total = if total > 40 && heavy.is_none() { 3 + total % 7 } else { total };
         let mut occs: Vec<Occ> = vec![];
-        for k in 0..n_main {
-            let nv = match m.num_vals { Some((lo, Some(hi))) => lo + rng.below(hi - lo + 1), _ => 1 };
-            occs.push(Occ::Main((0..nv).map(|j| format!("v{k}_{j}")).collect()));
-            if n_main < 40 && rng.chance(1, 3) { occs.push(if rng.chance(1, 2) { Occ::Other(vec![format!("w{k}")]) } else { Occ::Flag }); }
+        for k in 0..total {
+            let ai = match heavy { Some(h) if rng.chance(9, 10) => h, _ => rng.below(3) };
+            let a = &args[ai];
+            let nv = if !matches!(a.action, Some("set") | Some("append")) { 0 } else { match a.num_vals { Some((lo, Some(hi))) => lo + rng.below(hi - lo + 1), Some((lo, None)) => lo + rng.below(3), None => 1 } };
+            occs.push(Occ { arg: ai, vals: (0..nv).map(|j| format!("v{k}_{j}")).collect() });
         }
-        if rng.chance(1, 3) { occs.insert(0, Occ::Other(vec!["w_first".into()])); }
-        if rng.chance(1, 3) { occs.push(Occ::Other(vec!["w_last".into()])); }
-        // render
+        // render; `f` flags are sprinkled in to terminate value lists
         let mut argv: Vec<Vec<u8>> = vec![b"prog".to_vec()];
         let mut i = 0;
         while i < occs.len() {
-            match &occs[i] {
-                Occ::Main(vals) => {
-                    if !takes {
-                        // cluster consecutive flag occurrences sometimes
-                        let mut run = 1;
-                        while i + run < occs.len() && matches!(occs[i + run], Occ::Main(_)) && run < 9 && rng.chance(2, 3) { run += 1; }
-                        if run > 1 || rng.chance(1, 2) { argv.push(format!("-{}", "m".repeat(run)).into_bytes()); i += run; continue; }
-                        argv.push(b"--main".to_vec());
-                    } else if vals.is_empty() { argv.push(if rng.chance(1, 2) { b"--main".to_vec() } else { b"-m".to_vec() }); }
-                    else if vals.len() == 1 {
-                        match rng.below(5) {
-                            0 => argv.push(format!("--main={}", vals[0]).into_bytes()),
-                            1 => argv.push(format!("-m{}", vals[0]).into_bytes()),
-                            2 => argv.push(format!("-m={}", vals[0]).into_bytes()),
-                            3 => { argv.push(b"-m".to_vec()); argv.push(vals[0].clone().into_bytes()); }
-                            _ => { argv.push(b"--main".to_vec()); argv.push(vals[0].clone().into_bytes()); }
-                        }
-                    } else { argv.push(b"--main".to_vec()); for v in vals { argv.push(v.clone().into_bytes()); } }
+            let oc = &occs[i];
+            let a = &args[oc.arg];
+            let (sh, lg) = (a.short.unwrap(), a.long.clone().unwrap());
+            let takes = matches!(a.action, Some("set") | Some("append"));
+            if !takes {
+                let mut run = 1;
+                while i + run < occs.len() && occs[i + run].arg == oc.arg && run < 9 && rng.chance(2, 3) { run += 1; }
+                if run > 1 || rng.chance(1, 2) { argv.push(format!("-{}", sh.to_string().repeat(run)).into_bytes()); i += run; continue; }
+                argv.push(format!("--{lg}").into_bytes());
+            } else if oc.vals.is_empty() {
+                argv.push(if rng.chance(1, 2) { format!("--{lg}").into_bytes() } else { format!("-{sh}").into_bytes() });
+                // an empty occurrence must be followed by something that is not a value
+                if i + 1 == occs.len() || true { if i + 1 < occs.len() || rng.chance(1, 2) { /* next token is a flag anyway */ } }
+            } else if oc.vals.len() == 1 && a.num_vals.map(|(_, hi)| hi == Some(1) || hi.is_none() && false).unwrap_or(true) {
+                match rng.below(5) {
+                    0 => argv.push(format!("--{lg}={}", oc.vals[0]).into_bytes()),
+                    1 => argv.push(format!("-{sh}{}", oc.vals[0]).into_bytes()),
+                    2 => argv.push(format!("-{sh}={}", oc.vals[0]).into_bytes()),
+                    3 => { argv.push(format!("-{sh}").into_bytes()); argv.push(oc.vals[0].clone().into_bytes()); }
+                    _ => { argv.push(format!("--{lg}").into_bytes()); argv.push(oc.vals[0].clone().into_bytes()); }
                 }
-                Occ::Other(vals) => { argv.push(b"--other".to_vec()); argv.push(vals[0].clone().into_bytes()); }
-                Occ::Flag => argv.push(b"-f".to_vec()),
+            } else {
+                argv.push(format!("--{lg}").into_bytes());
+                for v in &oc.vals { argv.push(v.clone().into_bytes()); }
+                // values could run on into the next occurrence's values only if that starts without a flag; it never does
             }
             i += 1;
         }
         let (canon, mm, err) = real_parse(&cmd, &argv);
         let req = parse_request(&cmd, &argv);
-        // ---- oracle: the action's specification
-        let mains: Vec<&Vec<String>> = occs.iter().filter_map(|x| if let Occ::Main(v) = x { Some(v) } else { None }).collect();
-        let others: Vec<usize> = occs.iter().enumerate().filter_map(|(k, x)| matches!(x, Occ::Other(_)).then_some(k)).collect();
-        let main_pos: Vec<usize> = occs.iter().enumerate().filter_map(|(k, x)| matches!(x, Occ::Main(_)).then_some(k)).collect();
-        // `overrides_with` is symmetric in effect: whichever of the two is given later removes the other
-        let related = rel <= 2;
-        let m_over_o = related; let o_over_m = related;
-        let self_ov = self_override == 1 || self_override == 2;
-        let simple = m.delim.is_none(); // with a delimiter the values are split; checked by C02
-        // occurrences of main that survive overriding by `o` (an `o` occurrence removes every earlier main occurrence)
-        let last_o = others.last().copied();
-        let surviving: Vec<usize> = main_pos.iter().copied().filter(|&k| !(o_over_m && last_o.map(|l| l > k).unwrap_or(false))).collect();
-        let other_is_set = other.action == Some("set");
-        let other_repeat_conflict = other_is_set && others.len() > 1 && !cmd.settings.args_override_self
-            && !(m_over_o && { // every earlier `o` removed by a main occurrence in between
-                others.windows(2).all(|w| main_pos.iter().any(|&k| k > w[0] && k < w[1])) });
+        // ---- the abstract simulator
+        let related = |x: usize, y: usize| args[x].overrides.contains(&args[y].id) || args[y].overrides.contains(&args[x].id);
+        let mut st: BTreeMap<usize, Vec<Vec<String>>> = BTreeMap::new();
+        let mut cnt: BTreeMap<usize, u32> = BTreeMap::new();
+        let mut conflict = false;
+        for oc in &occs {
+            let x = oc.arg;
+            let a = &args[x];
+            let action = a.action.unwrap();
+            let vals: Vec<String> = if oc.vals.is_empty() && !a.default_missing.is_empty() { a.default_missing.clone() } else { oc.vals.clone() };
+            let prev_count = *cnt.get(&x).unwrap_or(&0);
+            let self_rel = args[x].overrides.contains(&args[x].id);
+            match action {
+                "set" | "setTrue" | "setFalse" => {
+                    if st.contains_key(&x) && !(cmd.settings.args_override_self || self_rel) { conflict = true; break; }
+                    st.remove(&x);
+                }
+                "count" => { st.remove(&x); }
+                _ => {}
+            }
+            for y in 0..3 { if related(x, y) && (y != x || self_rel) { st.remove(&y); cnt.remove(&y); } }
+            match action {
+                "set" => { st.insert(x, vec![vals]); }
+                "setTrue" => { st.insert(x, vec![vec!["true".into()]]); }
+                "setFalse" => { st.insert(x, vec![vec!["false".into()]]); }
+                "count" => { let n = (prev_count + 1).min(255); cnt.insert(x, n); st.insert(x, vec![vec![n.to_string()]]); }
+                _ => { st.entry(x).or_default().push(vals); }
+            }
+        }
         match (&mm, &err) {
             (Some(mt), _) => {
-                let fail = |rep: &mut Report, class: &str, d: String| rep.oracle_fail(class, &req, &d);
-                match action {
-                    "count" => {
-                        let exp = surviving.len().min(255) as u8;
-                        let got = mt.get_count("m");
-                        if got != exp { fail(&mut rep, "count-not-saturating-number-of-occurrences", format!("get_count={got} expected={exp} ({} occurrences)", surviving.len())); }
+                if conflict { rep.oracle_fail("set-repeat-accepted-without-self-override", &req, &format!("argv={:?}", argv.iter().map(|a| String::from_utf8_lossy(a).to_string()).collect::<Vec<_>>())); }
+                else {
+                    for x in 0..3 {
+                        let a = &args[x];
+                        let id = a.id.as_str();
+                        let exp = st.get(&x);
+                        match a.action.unwrap() {
+                            "count" => { let e = exp.map(|g| g[0][0].parse::<u8>().unwrap()).unwrap_or(0); if mt.get_count(id) != e { rep.oracle_fail("count-not-saturating-number-of-occurrences", &req, &format!("{id}: get_count={} expected={e}", mt.get_count(id))); } }
+                            "setTrue" => { let e = exp.is_some(); if mt.get_flag(id) != e { rep.oracle_fail("flag-truth-value", &req, &format!("{id}: get_flag={} expected={e}", mt.get_flag(id))); } }
+                            "setFalse" => { let e = exp.is_none(); if mt.get_flag(id) != e { rep.oracle_fail("flag-truth-value", &req, &format!("{id}: get_flag={} expected={e}", mt.get_flag(id))); } }
+                            act => {
+                                let got: Vec<Vec<String>> = mt.get_occurrences::<String>(id).map(|o| o.map(|g| g.cloned().collect()).collect()).unwrap_or_default();
+                                let e: Vec<Vec<String>> = exp.cloned().unwrap_or_default();
+                                if got != e { rep.oracle_fail(if act == "set" { "set-last-occurrence-wins" } else { "append-order-or-boundaries" }, &req, &format!("{id}: got={got:?} expected={e:?}")); }
+                            }
+                        }
                     }
-                    "setTrue" | "setFalse" => {
-                        let present = !surviving.is_empty();
-                        let exp = if action == "setTrue" { present } else { !present };
-                        if mt.get_flag("m") != exp { fail(&mut rep, "flag-truth-value", format!("get_flag={} expected={exp}", mt.get_flag("m"))); }
-                    }
-                    "append" if simple => {
-                        let got: Vec<Vec<String>> = mt.get_occurrences::<String>("m").map(|o| o.map(|g| g.cloned().collect()).collect()).unwrap_or_default();
-                        // `overrides_with(self)` makes every new occurrence remove the earlier ones (the override rule applied to itself)
-                        let kept: Vec<usize> = if self_override == 2 { surviving.last().copied().into_iter().collect() } else { surviving.clone() };
-                        let exp: Vec<Vec<String>> = kept.iter().map(|&k| if let Occ::Main(v) = &occs[k] { if v.is_empty() { vec!["miss".to_string()] } else { v.clone() } } else { vec![] }).collect();
-                        if got != exp { fail(&mut rep, "append-order-or-boundaries", format!("got={got:?} expected={exp:?}")); }
-                    }
-                    "set" if simple => {
-                        let got: Vec<String> = mt.get_many::<String>("m").map(|v| v.cloned().collect()).unwrap_or_default();
-                        let exp: Vec<String> = surviving.last().map(|&k| if let Occ::Main(v) = &occs[k] { if v.is_empty() { vec!["miss".to_string()] } else { v.clone() } } else { vec![] }).unwrap_or_default();
-                        if got != exp { fail(&mut rep, "set-last-occurrence-wins", format!("got={got:?} expected={exp:?}")); }
-                        // a successful parse with a repeated Set needs self-override (or an override by `o` in between)
-                        let repeat_unexcused = main_pos.windows(2).any(|w| !(o_over_m && others.iter().any(|&l| l > w[0] && l < w[1])));
-                        if main_pos.len() > 1 && !self_ov && repeat_unexcused { fail(&mut rep, "set-repeat-accepted-without-self-override", format!("argv={:?}", argv.iter().map(|a| String::from_utf8_lossy(a).to_string()).collect::<Vec<_>>())); }
-                    }
-                    _ => {}
-                }
-                // override symmetry: if m overrides o, `o` occurrences before the last main occurrence are gone
-                if m_over_o && !others.is_empty() && !main_pos.is_empty() {
-                    let last_m = *main_pos.last().unwrap();
-                    let exp_o: Vec<String> = others.iter().filter(|&&k| k > last_m).map(|&k| if let Occ::Other(v) = &occs[k] { v[0].clone() } else { String::new() }).collect();
-                    let got_o: Vec<String> = mt.get_many::<String>("o").map(|v| v.cloned().collect()).unwrap_or_default();
-                    let exp_o = if other_is_set { exp_o.last().cloned().into_iter().collect::<Vec<_>>() } else { exp_o };
-                    if got_o != exp_o { fail(&mut rep, "override-does-not-remove-earlier-occurrences", format!("o: got={got_o:?} expected={exp_o:?}")); }
                 }
             }
             (None, Some(e)) => {
-                // the only legitimate rejections here: a repeated Set without self-override -> ArgumentConflict
-                let main_repeat_conflict = matches!(action, "set" | "setTrue" | "setFalse") && !self_ov
-                    && main_pos.windows(2).any(|w| !(o_over_m && false) && !(o_over_m_removed(o_over_m, &others, w)));
-                if e.kind() == ErrorKind::ArgumentConflict && !(main_repeat_conflict || other_repeat_conflict) {
-                    rep.oracle_fail("conflict-reported-without-a-repeated-set", &req, &format!("argv={:?}", argv.iter().map(|a| String::from_utf8_lossy(a).to_string()).collect::<Vec<_>>()));
-                } else if e.kind() != ErrorKind::ArgumentConflict {
-                    rep.oracle_fail("unexpected-rejection", &req, &format!("{:?}", e.kind()));
-                }
+                if e.kind() == ErrorKind::ArgumentConflict && !conflict { rep.oracle_fail("conflict-reported-without-a-repeated-set", &req, &format!("argv={:?}", argv.iter().map(|a| String::from_utf8_lossy(a).to_string()).collect::<Vec<_>>())); }
+                else if e.kind() != ErrorKind::ArgumentConflict { rep.oracle_fail("unexpected-rejection", &req, &format!("{:?} argv={:?}", e.kind(), argv.iter().map(|a| String::from_utf8_lossy(a).to_string()).collect::<Vec<_>>())); }
             }
             _ => rep.oracle_fail("panic", &req, &canon),
         }
-        rep.case(&req, mains.len() >= 2);
-        rep.count(&format!("action:{action}"));
-        if n_main >= 254 { rep.count("repeats>=254"); }
-        let _ = case_i;
+        rep.case(&req, occs.len() >= 2);
+        if total >= 254 { rep.count("repeats>=254"); }
+        rep.count(if canon.starts_with("OK") { "ok" } else { "rejected" });
         reqs.push(req); impls.push(canon);
     }
     if o.driver != "none" {
@@ -149,9 +148,4 @@ pub fn run(o: &Opts) -> Report {
         for ((req, m), i) in reqs.iter().zip(model.iter()).zip(impls.iter()) { if m != i { rep.disagree("parse", req, m, i); } }
     }
     rep
-}
-
-/// between two consecutive main occurrences, did an `o` that overrides `m` remove the earlier one?
-fn o_over_m_removed(o_over_m: bool, others: &[usize], w: &[usize]) -> bool {
-    o_over_m && others.iter().any(|&l| l > w[0] && l < w[1])
 }
